@@ -547,24 +547,24 @@ open KV.TransportConn
 /-- **released_refused_exits** — when `releaseConn` refuses a connection (its group was closed by
 `CloseIdleConnections` / `Writer.Close` / a metadata update while a request was in flight) the connection is
 `closing` and the only event it can still take is `Exit` (its `run` loop returns, the network connection is closed). -/
-theorem transport_released_refused_exits (s s' : TransportConn.State) (c : Nat)
-    (h : TransportConn.step s (.release c false) = some s') :
+theorem transport_released_refused_exits (f : TFacts) (s s' : TransportConn.State) (c : Nat)
+    (h : TransportConn.step f s (.release c false) = some s') :
     get s' c = some .closing ∧
-    ∀ e s'', TransportConn.step s' e = some s'' → connOf e = some c → e = .exit c ∧ get s'' c = some .exited :=
-  released_refused_exits s s' c h
+    ∀ e s'', TransportConn.step f s' e = some s'' → connOf e = some c → e = .exit c ∧ get s'' c = some .exited :=
+  released_refused_exits f s s' c h
 
 /-- a closing connection (release refused, idle timer, group closed while idle) stays closing until it exits, and an
 exited one stays exited: no goroutine or connection of the model comes back after the pool was closed -/
-theorem transport_closing_only_exits (s s' : TransportConn.State) (e : Ev) (c : Nat)
-    (hcl : get s c = some .closing) (h : TransportConn.step s e = some s') :
+theorem transport_closing_only_exits (f : TFacts) (s s' : TransportConn.State) (e : Ev) (c : Nat)
+    (hcl : get s c = some .closing) (h : TransportConn.step f s e = some s') :
     get s' c = some .closing ∨ (e = .exit c ∧ get s' c = some .exited) :=
-  closing_only_exits s s' e c hcl h
+  closing_only_exits f s s' e c hcl h
 
-theorem transport_exited_is_final (s s' : TransportConn.State) (e : Ev) (c : Nat)
-    (hx : get s c = some .exited) (h : TransportConn.step s e = some s') : get s' c = some .exited :=
-  exited_is_final s s' e c hx h
+theorem transport_exited_is_final (f : TFacts) (s s' : TransportConn.State) (e : Ev) (c : Nat)
+    (hx : get s c = some .exited) (h : TransportConn.step f s e = some s') : get s' c = some .exited :=
+  exited_is_final f s s' e c hx h
 
-example : (TransportConn.run [] [.new 1 1, .recv 1, .closeIdle 1, .done 1 true false, .release 1 false, .exit 1]).map
+example : (TransportConn.run ⟨true⟩ [] [.new 1 1, .recv 1, .closeIdle 1, .done 1 true false, .release 1 false, .exit 1]).map
     (fun s => get s 1) = some (some .exited) := by decide
 
 end KV.C09
